@@ -55,6 +55,7 @@ GOOD_SUB6 = [(T_ID, PAIRING_ID), (T_PK, LTPK), (T_SIG, b"\x5a" * 64)]
 
 
 COAP_CODES = ["CONTENT", "BAD_REQUEST", "UNAUTHORIZED", "NOT_FOUND", "INTERNAL_SERVER_ERROR"]   # besides 2.04 Changed
+OWN_ID, OTHER_ID = "ctl-1", "ctl-2"     # the controller's own iOSPairingId and another controller's
 PDU_FRAGS = [512, 23, 64, 9, 158]      # GATT read sizes the scripted accessory cuts its response PDUs at
 
 
@@ -543,6 +544,13 @@ class Env:
     def next_exchange(self):
         """BLE: the next GATT transaction's (status, body, short-pdu) - prelude replies are one successful exchange
         wrapping the reply, the reply under test is the cell's explicit exchange script"""
+        if getattr(self, "events", None):
+            self.next_reply()
+            ev = self.events.pop(0)
+            if ev[0] == "drop":
+                from bleak.exc import BleakError
+                raise BleakError("disconnected")           # the link broke after the request was written
+            return (ev[1], ev[2], False)
         if not self.xq:
             logical = self.next_reply()
             if self.fed > self.n_pre and self.final_xs is not None:
@@ -567,6 +575,26 @@ class Env:
         self.ora = self.ora_pre if self.fed < self.n_pre else self.ora_cell
         self.fed += 1
         return self.script.pop(0)
+
+    def fast_retry_backoff(self, on):
+        """bleak_retry_connector.retry_bluetooth_connection_error sleeps 0.25 s..  between its attempts in real time;
+        the histories with link drops would take minutes.  Its module-level name `asyncio` is replaced by a view whose
+        sleep() yields once."""
+        import types
+        import bleak_retry_connector as brc
+        if on:
+            real = brc.asyncio
+
+            async def sleep(delay, result=None):
+                await real.sleep(0)
+                return result
+            view = types.ModuleType("asyncio_fast_sleep")
+            view.__dict__.update(real.__dict__)
+            view.sleep = sleep
+            self._brc_saved = real
+            brc.asyncio = view
+        else:
+            brc.asyncio = self._brc_saved
 
     def fake_crypto(self, on):
         if on:
@@ -786,21 +814,29 @@ class Env:
 
     # ---- pairing management on the real pairing classes
     def make_ip_pairing(self):
-        from aiohomekit.controller.ip.pairing import IpPairing
-        p = object.__new__(IpPairing)
+        """a real IpPairing (its own __init__, so state the class adds later exists) whose connection is the wired
+        in-memory HomeKitConnection; must be called with a running loop"""
+        import ipsim
+        p = ipsim.make_pairing(["127.0.0.1"], 1)
+        p._pairing_data["iOSPairingId"] = OWN_ID
 
         async def noop(*a, **k):
             return None
         p._ensure_connected = noop
         p.connection = None                          # set by rewire() for every cell
-        p._pairing_data = {"iOSPairingId": "ctl-1"}
-        p.shutdown = noop
+        self.ip_shutdowns = 0
+        env = self
+
+        async def shutdown():
+            env.ip_shutdowns += 1
+            p._shutdown = True
+        p.shutdown = shutdown
         return p
 
     def make_ble_pairing(self):
         from aiohomekit.controller.ble.pairing import BlePairing
         env = self
-        b = object.__new__(BlePairing)
+        import ipsim
 
         async def noop(*a, **k):
             return None
@@ -823,46 +859,118 @@ class Env:
 
         class St:
             accessories = Acc()
-        b._operation_lock = asyncio.Lock()
-        b._shutdown = False
-        b._restore_pending = False
-        b._populate_accessories_and_characteristics = noop
-        b._pairing_data = {"iOSPairingId": "ctl-1", "AccessoryAddress": "00:00:00:00:00:00"}
-        b.pairing_data = b._pairing_data
-        b.shutdown = noop
+            config_num = 1
+            state_num = None
+            broadcast_key = None
+        pd = {"AccessoryPairingID": "aa:bb:cc:dd:ee:ff", "AccessoryAddress": "00:00:00:00:00:00", "iOSPairingId": OWN_ID,
+              "AccessoryLTPK": "00" * 32, "iOSDeviceLTSK": "00" * 32, "iOSDeviceLTPK": "00" * 32, "Connection": "BLE"}
+        # the class's own __init__ (locks, flags and whatever state the class keeps between calls), on the scripted GATT peer;
+        # the real _async_request / _async_request_under_lock / ble_request / close / shutdown run
+        b = BlePairing(ipsim.FakeController(), pd, client=env.FakeClient())
         b._accessories_state = St()
-        b.description = None
-        b.device = None
-        b.id = "aa"
+        self.ble_connectable = True
 
-        # the real _async_request / _async_request_under_lock / ble_request run on the scripted GATT peer
-        b._ble_request_lock = asyncio.Lock()
-        b.client = env.FakeClient()
-        b._encryption_key = None
-        b._decryption_key = None
-        b._close_while_locked = noop
-        b.ble_advertisement = None
+        async def populate(*a, **k):
+            # stands for _ensure_connected: a dropped link is re-established before the operation unless the
+            # history says the accessory is out of reach
+            if b.client is None and env.ble_connectable:
+                b.client = env.FakeClient()
+        b._populate_accessories_and_characteristics = populate
         return b
 
     async def run_mgmt(self, op, reply, status=200, bst=0, short=False):
         self.begin([], reply, default_oracles(), default_oracles(), status,
                    xs=[(bst, reply, short)] if op.startswith("ble") else None, pdu_frag=PDU_FRAGS[len(reply) % len(PDU_FRAGS)])
         try:
-            if op == "ipadd":
-                r = await self.ip.add_pairing("ctl-2", "00" * 32, "User")
-            elif op == "iprem":
-                r = await self.ip.remove_pairing("ctl-2")
-            elif op == "bleadd":
-                r = await self.ble.add_pairing("ctl-2", "00" * 32, "Admin")
-            else:
-                r = await self.ble.remove_pairing("ctl-2")
-            return "ok done"
+            return await self.call_mgmt(op, OTHER_ID)
         except Exception as e:  # noqa
             return self.classify(e)
+
+    async def call_mgmt(self, op, pid):
+        if op == "ipadd":
+            await self.ip.add_pairing(pid, "00" * 32, "User")
+        elif op == "iprem":
+            await self.ip.remove_pairing(pid)
+        elif op == "bleadd":
+            await self.ble.add_pairing(pid, "00" * 32, "Admin")
+        else:
+            await self.ble.remove_pairing(pid)
+        return "ok done"
+
+    async def run_history(self, transport, calls):
+        """a HISTORY of pairing-management calls on ONE live pairing object (fresh per history).  Each call =
+        (method, own/other id, events); BLE events: ('reply', status, body) | ('drop',) = the link breaks after M1 was
+        written (BleakError on the read; retry_bluetooth_connection_error re-runs the method after a reconnect) |
+        ('noconn',) = the accessory is out of reach.  IP events: ('reply', http status, body).
+        Returns the per-call outcomes; after a call that shut the pairing down the rest is not run."""
+        outs = []
+        if transport == "ble":
+            self.ble = self.make_ble_pairing()
+        else:
+            self.ip = self.make_ip_pairing()
+        for (method, who, events) in calls:
+            op = transport + method
+            pid = OWN_ID if who == "own" else OTHER_ID
+            d = default_oracles()
+            if transport == "ble":
+                self.begin([], None, d, d)
+                self.script = [b""] * len(events)               # one logical reply per event
+                self.events = list(events)
+                self.ble_connectable = events[0][0] != "noconn"
+                if not self.ble_connectable and self.ble.client is not None:
+                    await self.ble.close()
+                obj = self.ble
+            else:
+                ev = events[-1]
+                self.begin([], ev[2], d, d, ev[1])
+                obj = self.ip
+            try:
+                r = await asyncio.wait_for(self.call_mgmt(op, pid), CELL_TIMEOUT)
+            except asyncio.TimeoutError:
+                outs.append("hang")
+                break
+            except Exception as e:  # noqa
+                r = self.classify(e)
+            self.events = None
+            if obj._shutdown:
+                outs.append(r + " shutdown")
+                break
+            outs.append(r)
+        return outs
+
 
 
 GOOD_M4 = ref_encode([(T_STATE, b"\x04"), (T_PROOF, b"\x44" * 64)])
 GOOD_M2 = ref_encode([(T_STATE, b"\x02"), (T_PK, bytes((i * 7) & 0xFF for i in range(384))), (T_SALT, bytes(range(16)))])
+
+
+# ---------------------------------------------------------------- termination guard
+CELL_TIMEOUT = 2.0      # real seconds; a healthy cell takes well under a millisecond
+
+
+HANG_LIMIT = 6          # after that many hangs / slow runs of one step or method its remaining cells are not run
+SLOW = 0.5              # seconds; a run this slow counts against the limit as well (e.g. real-time retry back-offs)
+_hangs = collections.Counter()
+
+
+async def guarded(coro, key="", budget=CELL_TIMEOUT):
+    """every implementation run is bounded in real time: a run that does not finish is the outcome 'hang';
+    the check stays standing on code that hangs or crawls in every cell of a stream"""
+    if _hangs[key] >= HANG_LIMIT:
+        coro.close()
+        return "not-run"
+    import time
+    t0 = time.monotonic()
+    try:
+        r = await asyncio.wait_for(coro, budget)
+    except asyncio.TimeoutError:
+        _hangs[key] += 1
+        return "hang"
+    if time.monotonic() - t0 > SLOW:
+        _hangs[key] += 1
+        if _hangs[key] >= HANG_LIMIT:
+            return "hang"
+    return r
 
 
 # ---------------------------------------------------------------- model side
@@ -1038,11 +1146,11 @@ async def run_real_verify(env, drv, cov, add_violation, record):
                         except StopIteration as s:
                             return s.value
                         reply = yield nxt
-                value = await env.bc.drive_pairing_state_machine(env.FakeClient(), "pair", resumed())
+                value = await asyncio.wait_for(env.bc.drive_pairing_state_machine(env.FakeClient(), "pair", resumed()), CELL_TIMEOUT)
                 out = "ok resumed" if c["step"] == "V2" else "ok keys"
             else:
                 for r in script:
-                    decoded = await env.conn.post_tlv("/pair-verify", body=request, expected=expected)
+                    decoded = await asyncio.wait_for(env.conn.post_tlv("/pair-verify", body=request, expected=expected), CELL_TIMEOUT)
                     fed += 1
                     request, expected = sm.send(decoded)
                 out = "ok cont"
@@ -1050,6 +1158,8 @@ async def run_real_verify(env, drv, cov, add_violation, record):
             out = "ok resumed" if c["step"] == "V2" else "ok keys"
         except Env.ScriptDone:
             out = "ok cont"
+        except asyncio.TimeoutError:
+            out = "hang"
         except Exception as e:  # noqa
             out = env.classify(e)
         cell = mk_cell("realcrypto", c["step"], c["t"], items, o, fields=f"tamper={c['tamper']}", order=c["order"])
@@ -1151,19 +1261,24 @@ def run(ctx):
 
     env = Env()
     env.good_m2 = ref_encode([(T_STATE, b"\x02"), (T_PK, x_pub), (T_ENC, b"\x88" * 120)])
-    env.ip = env.make_ip_pairing()
     fine = collections.OrderedDict()      # fine key -> list of violating cells
     mismatches = []
+    hangs = []                            # cells (undecodable reply) whose run did not return
     domain = collections.defaultdict(lambda: (set(), set(), set()))   # coarse key -> (transports, orders, http statuses) of all judged cells
 
     def coarse_of(cell, exp, cat):
         has_err = any(k == T_ERROR for k, _ in cell["items"])
-        return (cell["stream"] if cell["stream"] in ("mgmt",) else "step", cell["step"], state_kind(cell["items"], exp),
+        return ("mgmt" if cell["stream"] in ("mgmt", "hist") else "step", cell["step"], state_kind(cell["items"], exp),
                 "error" if has_err else "no-error", cat)
 
+    not_run = collections.Counter()
+
     def record(cell, impl, model):
+        if impl == "not-run":                          # skipped after HANG_LIMIT hangs of this step/method: counted, not judged
+            not_run[cell["stream"] + "/" + cell["step"]] += 1
+            return
         items = cell["items"]
-        mg = cell["stream"] == "mgmt"
+        mg = cell["stream"] in ("mgmt", "hist")
         if items is None:                              # mutated stream: judge what an independent decoder sees
             items = ref_decode(cell["raw"])
             if mg and items is not None and cell["step"].startswith("ble"):
@@ -1185,10 +1300,14 @@ def run(ctx):
                     d[0].add(cell["t"])
                     d[1].add(cell["meta"]["order"])
                     d[2].add(http_class(cell))
+            if impl == "hang":
+                verdict = ("direct", "hang", f"did not return within {CELL_TIMEOUT:g} s of real time")
             if verdict is not None:
                 ck = coarse_of(jc, exp, verdict[0]) + (verdict[1],)
                 fine.setdefault(ck, []).append((cell, impl, model, verdict))
-        if verdict is None and canon(impl, cell["stream"] == "call") != canon(model, cell["stream"] == "call"):
+        elif impl == "hang":
+            hangs.append((cell, impl, model))
+        if verdict is None and impl != "hang" and canon(impl, cell["stream"] == "call") != canon(model, cell["stream"] == "call"):
             mismatches.append((cell, impl, model))
         reply = cell_reply(cell) if cell["t"] != "L" else repr(cell["items"]).encode()
         nontrivial = not (impl.startswith("crash ScriptDone"))
@@ -1196,7 +1315,7 @@ def run(ctx):
         if cov.evaluations % 4099 == 0:
             sample = dict(stream=cell["stream"], step=cell["step"], transport=cell["t"], reply=hx(reply)[:96],
                           fields=cell["meta"]["fields"], impl=impl[:60], model=model[:60])
-        cov.case(f"{cell['stream']}|{cell['step']}|{cell['t']}|{cell['meta'].get('status', '-')}|{hx(reply)}|{o_tokens(cell['o'])}", nontrivial, sample=sample,
+        cov.case(f"{cell['stream']}|{cell['step']}|{cell['t']}|{cell['meta'].get('status', '-')}|{hx(reply)}|{o_tokens(cell['o'])}|{(cell.get('history') or {}).get('description', '')}", nontrivial, sample=sample,
                  http_status=cell["meta"].get("status", "-"),
                  stream=cell["stream"], step=cell["step"], transport=cell["t"], result=canon(impl).split(" ")[0] + " " + (impl.split(" ")[1] if impl.startswith("err") else ""),
                  error_code=("n/a" if items is None else err_name(next((v for k, v in items if k == T_ERROR), None))),
@@ -1215,7 +1334,7 @@ def run(ctx):
         env.fake_crypto(True)
         try:
             for c in cells:
-                out.append(await env.run_step(c))
+                out.append(await guarded(env.run_step(c), c["step"] + c["t"]))
         finally:
             env.fake_crypto(False)
         return out
@@ -1254,7 +1373,7 @@ def run(ctx):
         env.fake_crypto(True)
         try:
             for c in call_cells:
-                out.append(await env.run_call(c))
+                out.append(await guarded(env.run_call(c), c["step"] + c["level"]))
         finally:
             env.fake_crypto(False)
             env.uninstall_call_level()
@@ -1341,10 +1460,117 @@ def run(ctx):
 
     async def all_mgmt():
         env.ble = env.make_ble_pairing()
-        return [await env.run_mgmt(c["step"], c["raw"], c.get("status", 200), c.get("bst", 0), c.get("short", False)) for c in all_mg]
+        env.ip = env.make_ip_pairing()
+        out = []
+        for c in all_mg:
+            r = await guarded(env.run_mgmt(c["step"], c["raw"], c.get("status", 200), c.get("bst", 0), c.get("short", False)), c["step"])
+            if r == "hang":
+                env.ble = env.make_ble_pairing()          # a hung call may still hold the pairing's locks
+                env.ip = env.make_ip_pairing()
+            out.append(r)
+        return out
+    _hangs.clear()
     impls = asyncio.run(all_mgmt())
     for c, i, m in zip(all_mg, impls, models):
         record(c, i, m)
+
+    # ---- HISTORIES of pairing-management calls on one live pairing object (state surviving between calls)
+    H_REPLIES = collections.OrderedDict([
+        ("ok", [(T_STATE, b"\x02")]),
+        ("ok-nostate", []),
+        ("auth", [(T_STATE, b"\x02"), (T_ERROR, b"\x02")]),
+        ("auth-nostate", [(T_ERROR, b"\x02")]),
+        ("busy", [(T_STATE, b"\x02"), (T_ERROR, b"\x07")]),
+        ("wrong-state", [(T_STATE, b"\x03")]),
+    ])
+
+    def h_events(transport, kind):
+        """kind: a reply name, optionally prefixed by drop+ / drop+drop+ (BLE), or 'pdu5' / 'noconn' (BLE), '470:<reply>' (IP)"""
+        if transport == "ip":
+            st, _, name = kind.rpartition(":")
+            return [("reply", int(st or 200), ref_encode(H_REPLIES[name]))], H_REPLIES[name]
+        if kind == "noconn":
+            return [("noconn",)], None
+        if kind == "pdu5":
+            return [("reply", 5, ble_wrap(ref_encode(H_REPLIES["auth"])))], H_REPLIES["auth"]
+        parts = kind.split("+")
+        items = H_REPLIES[parts[-1]]
+        return [("drop",)] * (len(parts) - 1) + [("reply", 0, ble_wrap(ref_encode(items)))], items
+
+    kinds = {"ble": list(H_REPLIES) + ["drop+auth", "drop+ok", "drop+drop+auth-nostate", "pdu5", "noconn"],
+             "ip": list(H_REPLIES) + ["470:auth", "429:busy"]}
+    whos = [("rem", "own"), ("rem", "other"), ("add", "other")]
+    histories = []
+    for transport in ("ble", "ip"):
+        ks = kinds[transport]
+        for (c1, c2) in itertools.product(itertools.product(whos, ks), repeat=2):
+            histories.append((transport, [c1, c2]))
+        k3 = ks if tier != "quick" else [k for k in ks if k in ("ok", "auth", "auth-nostate", "busy", "wrong-state", "drop+auth", "noconn", "470:auth")]
+        for mid in whos:
+            for (a, b_, c_) in itertools.product(k3, repeat=3):
+                histories.append((transport, [(("rem", "own"), a), (mid, b_), (("rem", "own"), c_)]))
+    hist_calls = []     # (history index, call index, transport, method, who, kind, events, items)
+    hist_scripts = []
+    for hi, (transport, calls) in enumerate(histories):
+        script = []
+        for ci, ((method, who), kind) in enumerate(calls):
+            events, items = h_events(transport, kind)
+            script.append((method, who, events))
+            hist_calls.append((hi, ci, transport, method, who, kind, events, items))
+        hist_scripts.append((transport, script))
+
+    async def all_histories():
+        outs = []
+        env.fast_retry_backoff(True)
+        try:
+            for (transport, script) in hist_scripts:
+                r = await guarded(env.run_history(transport, script), "hist" + transport, budget=4 * CELL_TIMEOUT)
+                if r != "hang" and "hang" in r:
+                    _hangs["hist" + transport] += 1
+                outs.append([r] if r in ("hang", "not-run") else r)
+        finally:
+            env.fast_retry_backoff(False)
+        return outs
+    _hangs.clear()
+    hist_outs = asyncio.run(all_histories())
+    lines, line_of = [], {}
+    for (hi, ci, transport, method, who, kind, events, items) in hist_calls:
+        op = transport + method
+        last = events[-1]
+        if last[0] == "reply":
+            line_of[(hi, ci)] = len(lines)
+            if transport == "ble":
+                lines.append(f"bretry {op} " + " ".join("D" if e[0] == "drop" else f"{e[1]}:{hx(e[2])}" for e in events))
+            else:
+                lines.append(f"mgmt {op} {hx(last[2])}")
+    hist_models = drv.batch(lines)
+    n_hist_calls = 0
+    for (hi, ci, transport, method, who, kind, events, items) in hist_calls:
+        outs = hist_outs[hi]
+        if ci >= len(outs):
+            continue                                   # not run: the pairing was shut down (or hung) earlier in the history
+        impl = outs[ci]
+        model = hist_models[line_of[(hi, ci)]] if (hi, ci) in line_of else "crash"
+        if model == "ok done" and method == "rem" and who == "own":
+            model = "ok done shutdown"               # _shutdown_if_primary_pairing_removed
+        op = transport + method
+        descr = " ; ".join(f"{m}-{w}:{k}" for ((m, w), k) in histories[hi][1][:ci + 1])
+        cell = mk_cell("mgmt", op, "-", items or [], {}, fields="history", order="history")
+        cell["stream"] = "hist"
+        cell["raw"] = events[-1][2] if events[-1][0] == "reply" else b""
+        cell["meta"]["status"] = str(events[-1][1]) if transport == "ip" else "-"
+        cell["history"] = dict(transport=transport, upto_call=ci, calls=[dict(method=m, id=w, accessory=k) for ((m, w), k) in histories[hi][1]],
+                               description=descr, outcomes=outs[:ci + 1])
+        if transport == "ble" and sum(e[0] == "drop" for e in events) >= (2 if method == "add" else 10):
+            cell["items"], cell["ble"] = [], dict(kind="other", xs=[])       # every attempt lost the link: no reply was read
+        elif kind == "pdu5":
+            cell["ble"] = dict(kind="status", xs=[(5, events[-1][2])])
+        elif items is None:
+            cell["ble"] = dict(kind="other", xs=[])
+        n_hist_calls += 1
+        record(cell, impl, model)
+    cov.extra["histories"] = dict(histories=len(histories), calls_run=n_hist_calls,
+                                  note="one live BlePairing / IpPairing per history; each call judged by its own last reply")
 
     # ---- vm_compute cross-check of the extracted model on a sample
     rs = rng(seed, "c04vm")
@@ -1399,6 +1625,8 @@ def run(ctx):
                 key += "/" + "+".join(sorted(orders))
             if hs != dom_h:
                 key += "/http-" + "+".join(sorted(hs)) + "-only"
+            if {c["stream"] for c, _, _, _ in lst} == {"hist"}:
+                key += "/history-only"
         merged.setdefault(key, []).extend((c, impl, model, verdict, sk, ek) for c, impl, model, verdict in lst)
     for key, lst in merged.items():
         def rank(x):
@@ -1415,6 +1643,8 @@ def run(ctx):
         http = "" if c["meta"].get("status", "-") == "-" else f", HTTP status {c['meta']['status']}"
         if c["meta"].get("coap_code", "-") not in ("-", "CHANGED"):
             http += f", CoAP code {c['meta']['coap_code']}"
+        if c.get("history"):
+            http += f", after the history [{c['history']['description']}] on one live pairing object (outcomes {c['history']['outcomes']})"
         if c["t"] == "U" and not c.get("ble"):
             http += f", response PDUs of {PDU_FRAGS[len(cell_reply(c)) % len(PDU_FRAGS)]} bytes"
         if c.get("ble") and c["ble"].get("plan"):
@@ -1426,7 +1656,7 @@ def run(ctx):
                                items=[(k, hx(v)) for k, v in (c["items"] or [])], oracles={k: (hx(v) if isinstance(v, bytes) else v) for k, v in c["o"].items()},
                                impl=impl, model=model, expected=verdict[2], failing_cells=len(lst),
                                transports=ts, layouts=orders[:8], http_status=c["meta"].get("status", "-"),
-                               coap_code=c["meta"].get("coap_code", "-"),
+                               coap_code=c["meta"].get("coap_code", "-"), history=c.get("history"),
                                ble_exchanges=[(x[0], hx(x[1])) for x in c["ble"]["xs"]] if c.get("ble") else None,
                                ble_pdu_frag=(c.get("ble") or {}).get("pdu_frag"),
                                http_statuses=sorted({x[0]["meta"].get("status", "-") for x in lst})))
@@ -1447,6 +1677,10 @@ def run(ctx):
                                items=[(k2, hx(v)) for k2, v in (c["items"] or [])],
                                oracles={k2: (hx(v) if isinstance(v, bytes) else v) for k2, v in c["o"].items()},
                                impl=impl, model=model, broken="correspondence Model/Steps.v <-> aiohomekit/protocol/__init__.py + glue"))
+    if not_run:
+        cov.extra["not_run_after_hangs"] = dict(not_run)
+    cov.extra["termination_guard"] = (f"every implementation run under asyncio.wait_for({CELL_TIMEOUT:g} s); outcome 'hang' is a violation with the "
+                                      f"cell as replay; after {HANG_LIMIT} hangs/slow runs of one step or method its remaining cells are skipped")
     cov.extra["exhaustive"] = True
     cov.extra["exhaustive_part"] = (
         "main: 5 steps x 13 error items {absent, 00..08, ff, 2-byte, empty} x 11 states {absent, expected, 7 wrong values, 2-byte, empty} "
